@@ -154,3 +154,8 @@ for _r in C03_REASONS:
     REASON_PROP[_r] = "C03"
 for _r in C19_REASONS:
     REASON_PROP[_r] = "C19"
+for _r in ("altered file reports a different signal length as valid", "altered file reports a different first sample id as valid",
+           "altered samples returned as valid", "altered source definitions returned as valid", "altered signal definitions returned as valid",
+           "the open wrote to the altered file without changing it", "altered or incomplete annotations returned as valid",
+           "altered or incomplete UTC entries returned as valid", "altered or incomplete user data returned as valid"):
+    REASON_PROP[_r] = "C04"
